@@ -110,6 +110,57 @@ Proof.
   reflexivity.
 Qed.
 
+(** ** induction principles for the nested trees *)
+
+Lemma value_ind' (P : value -> Prop) :
+  (forall x, P (VVar x)) -> (forall l p, P (VInt l p)) -> (forall l p, P (VFloat l p)) ->
+  (forall s p, P (VString s p)) -> (forall b p, P (VBool b p)) -> (forall p, P (VNull p)) ->
+  (forall n p, P (VEnum n p)) ->
+  (forall vs o c, Forall P vs -> P (VList vs o c)) ->
+  (forall fs o c, Forall (fun f => P (snd f)) fs -> P (VObject fs o c)) ->
+  forall v, P v.
+Proof.
+  intros H1 H2 H3 H4 H5 H6 H7 H8 H9. fix IH 1.
+  intros [x|l p|l p|s p|b p|p|n p|vs o c|fs o c];
+    [apply H1|apply H2|apply H3|apply H4|apply H5|apply H6|apply H7| | ].
+  - apply H8. induction vs as [|v vs IHvs]; constructor; [apply IH|exact IHvs].
+  - apply H9. induction fs as [|f fs IHfs]; constructor; [apply IH|exact IHfs].
+Qed.
+
+Lemma selection_ind' (P : selection -> Prop) (Q : selset -> Prop) :
+  (forall alias n args dirs, P (SField alias n args dirs None)) ->
+  (forall alias n args dirs ss, Q ss -> P (SField alias n args dirs (Some ss))) ->
+  (forall n dirs e, P (SSpread n dirs e)) ->
+  (forall cond dirs ss e, Q ss -> P (SInline cond dirs ss e)) ->
+  (forall sels o c, Forall P sels -> Q (SelSet sels o c)) ->
+  (forall s, P s) /\ (forall ss, Q ss).
+Proof.
+  intros H1 H2 H3 H4 H5.
+  assert (HP : forall s, P s).
+  { fix IH 1. intros [alias n args dirs [[sels o c]|]|n dirs e|cond dirs [sels o c] e].
+    - apply H2. apply H5. induction sels as [|x r IHr]; constructor; [apply IH|exact IHr].
+    - apply H1.
+    - apply H3.
+    - apply H4. apply H5. induction sels as [|x r IHr]; constructor; [apply IH|exact IHr]. }
+  split; [exact HP|]. intros [sels o c]. apply H5. induction sels; constructor; auto.
+Qed.
+
+(** ** token counts *)
+
+Lemma flat_map_length_in {A B} (f : A -> list B) x xs :
+  In x xs -> (length (f x) <= length (flat_map f xs))%nat.
+Proof.
+  induction xs as [|y ys IH]; simpl; [tauto|]. rewrite app_length. intros [->|H]; [lia|].
+  specialize (IH H). lia.
+Qed.
+
+Lemma flat_map_length_ge {A B} (f : A -> list B) xs :
+  (forall x, In x xs -> (1 <= length (f x))%nat) -> (length xs <= length (flat_map f xs))%nat.
+Proof.
+  induction xs as [|y ys IH]; simpl; intro H; [lia|]. rewrite app_length.
+  pose proof (H y (or_introl eq_refl)). assert (length ys <= length (flat_map f ys))%nat by (apply IH; auto). lia.
+Qed.
+
 (** ** maxl *)
 
 Lemma maxl_nonneg l : (0 <= maxl l)%Z.
